@@ -644,7 +644,7 @@ func genFormat(t *rapid.T) Case {
 }
 
 func genControl(t *rapid.T) Case {
-	kind := rapid.SampledFrom([]string{"exit", "panic", "test", "test-failfast", "len-badarg"}).Draw(t, "kind")
+	kind := rapid.SampledFrom([]string{"exit", "panic", "test", "test-failfast", "len-badarg", "test-message"}).Draw(t, "kind")
 	c := Case{Fn: kind}
 	switch kind {
 	case "exit":
@@ -717,6 +717,37 @@ func genControl(t *rapid.T) Case {
 		c.Src, c.Want, c.FailFast = sb.String(), want, kind == "test-failfast"
 		c.Why = "counts of failed and passed tests in the summary, status 1 on any failure; fail-fast stops at the first failure"
 		c.Classes = []string{fmt.Sprintf("pass=%d fail=%d", pass, fail)}
+	case "test-message":
+		// builtins.md#test: with three arguments the third is a message, printed as it is;
+		// with four or more it is a format string for the remaining arguments (see sprintf)
+		one := 1
+		c.ExitCode = &one
+		c.Class = "test"
+		if rapid.Bool().Draw(t, "plain") {
+			msg := rapid.SampledFrom([]string{"only 50% done", "100%", "%v", "%d items", "rate %s%", "a%%b", "plain", "x %5.2f y", "%", "%!"}).Draw(t, "msg")
+			c.Src = "test 1 2 " + q(msg) + "\n"
+			c.MsgHas = "want != got: 1 != 2 (" + msg + ")"
+			c.Why = "in the case of three arguments the third argument is a message that is printed if the test fails (not a format string)"
+			c.Classes = []string{"plain-message:" + msg}
+		} else {
+			n := rapid.IntRange(1, 3).Draw(t, "nargs")
+			format, args, want := "got", "", "got"
+			for i := 0; i < n; i++ {
+				switch rapid.IntRange(0, 2).Draw(t, "argkind") {
+				case 0:
+					format, args, want = format+" %v", args+" "+strconv.Itoa(7+i), want+" "+strconv.Itoa(7+i)
+				case 1:
+					format, args, want = format+" %s", args+" "+q("w"+strconv.Itoa(i)), want+" w"+strconv.Itoa(i)
+				default:
+					format, args, want = format+" %v", args+" true", want+" true"
+				}
+			}
+			c.Src = "test " + q("a") + " " + q("b") + " " + q(format) + args + "\n"
+			c.MsgHas = "want != got: \"a\" != \"b\" (" + want + ")"
+			c.Why = "in case of four or more arguments the third argument is a format string, the remaining ones replace its specifiers"
+			c.Classes = []string{fmt.Sprintf("format-message:%d", n)}
+		}
+		c.Want = []string{"❌ 1 failed test", "✔️ 0 passed tests"}
 	case "len-badarg":
 		arg := rapid.SampledFrom([]string{"1", "true", "(-2.5)"}).Draw(t, "arg")
 		c.Src = "print (len " + arg + ")\n"
